@@ -241,6 +241,9 @@ func encodeWinbox(v *wireVec) (*wireCase, error) {
 	if s := ms_(cfg, "username"); s != "" {
 		cc["username"] = s
 	}
+	if s := ms_(cfg, "regexp"); s != "" {
+		cc["username_regexp"] = s
+	}
 	c.cfg = cc
 	return c, nil
 }
